@@ -32,28 +32,40 @@ static bool xor_other_form_key(const TextStr& t, const bytes& B, const MatchRec&
   return false;
 }
 
+static std::string check_case(const std::vector<TextStr>& strs, const std::vector<int>& forms,
+                              const std::vector<bytes>& bufs, const BufFeatures& bf, CaseInfo& ci,
+                              const Src* src);
+
 std::string run_case(Src& s, CaseInfo& ci)
 {
   size_t nstr = 1 + s.weighted({60, 20, 10, 10});
   std::vector<TextStr> strs;
   std::vector<int> forms;
-  std::string src;
   for (size_t i = 0; i < nstr; i++)
   {
     strs.push_back(gen_text_string(s));
     forms.push_back((int) s.range(0, 5));
-    src += strf("rule r%zu { strings: %s condition: %s }\n", i,
-                print_text_string(strs[i], "$a").c_str(), COND_FORMS[forms[i]]);
   }
   size_t nbuf = s.range(1, 3);
   std::vector<bytes> bufs;
   BufFeatures bf;
   for (size_t i = 0; i < nbuf; i++) bufs.push_back(gen_text_buffer(s, strs, bf));
+  return check_case(strs, forms, bufs, bf, ci, &s);
+}
 
+static std::string check_case(const std::vector<TextStr>& strs, const std::vector<int>& forms,
+                              const std::vector<bytes>& bufs, const BufFeatures& bf, CaseInfo& ci,
+                              const Src* srcp)
+{
+  std::string src;
+  for (size_t i = 0; i < strs.size(); i++)
+    src += strf("rule r%zu { strings: %s condition: %s }\n", i,
+                print_text_string(strs[i], "$a").c_str(), COND_FORMS[forms[i]]);
   ci.desc = src;
   for (auto& b : bufs) ci.desc += "buffer[" + std::to_string(b.size()) + "] \"" + esc(b) + "\"\n";
   ci.hash = hstr(ci.desc);
-  checkpoint(s, ci.desc);
+  if (srcp)
+    checkpoint(*srcp, ci.desc);
 
   Rules rules;
   CompileResult cr = compile_simple(src, rules);
@@ -160,4 +172,56 @@ std::string run_case(Src& s, CaseInfo& ci)
   if (bf.alnum_delims)
     ci.classes.push_back("buf-alnum-delim");
   return "";
+}
+
+static FixedCase fx(const std::string& name, TextStr t, const bytes& buf)
+{
+  return {name, [=](CaseInfo& ci) {
+            BufFeatures bf;
+            return check_case({t}, {0}, {buf}, bf, ci, nullptr);
+          }};
+}
+
+std::vector<FixedCase> fixed_cases()
+{
+  std::vector<FixedCase> v;
+  {  // known finding: key outside the declared range through the other form's atom
+    TextStr t;
+    t.pat = bytes("a\0\0\0\0\0\0\0\0\0\0\0\0\0\0\0\0\0\0\0\0\0\0\0\0\0aa\0\0\0\0\0\0\0\0\0\0a\0\0\0", 42);
+    t.ascii = t.wide = true;
+    t.has_xor = true;
+    t.xlo = t.xhi = 0;
+    bytes inst = t.pat;
+    for (auto& c : inst) c ^= 1;
+    bytes buf = bytes("\0", 1) + t.pat + " aaa" + bytes("\0a\0aa\0", 6) + inst + " " + t.pat;
+    v.push_back(fx("known-xor-key-range", t, buf));
+  }
+  {  // fixed fbd4e39: wide-only xor string matched its ascii form
+    TextStr t;
+    t.pat = bytes("a\0\0", 3);
+    t.wide = true;
+    t.has_xor = true;
+    t.xlo = t.xhi = 0;
+    v.push_back(fx("fixed-wide-xor-ascii-form", t, bytes("aaaaaaaaaa\0\0\0", 13)));
+  }
+  {  // fixed 542d6f7: fullword rejection of the ascii form hid the wide form
+    TextStr t;
+    t.pat = bytes("a\0\0\0", 4);
+    t.ascii = t.wide = t.fullword = true;
+    v.push_back(fx("fixed-fullword-hides-wide", t, bytes("aaaaaaaaaaaaaaaaaaaa\0\0\0\0\0\0\0", 27)));
+    TextStr u = t;
+    u.has_xor = true;
+    u.xor_bare = true;
+    v.push_back(fx("fixed-fullword-hides-ascii-xor", u, bytes("A\0`\x01\x01\x01\x01\x01\x01\x01", 10)));
+  }
+  {  // plain sanity cases
+    TextStr t;
+    t.pat = "abc";
+    v.push_back(fx("plain-overlap", t, "abcabcabc xabcx abc"));
+    t.fullword = true;
+    t.wide = true;
+    t.ascii = true;
+    v.push_back(fx("fullword-ascii-wide", t, bytes("abc a\0b\0c\0 xabc x\0a\0b\0c\0 \x01""a\0b\0c\0", 36)));
+  }
+  return v;
 }
